@@ -18,6 +18,11 @@ type evaluator struct {
 	// shuffleSite counts the places where Options.Shuffle has permuted a stream so far, so that the same
 	// rows are permuted differently at different places of one evaluation.
 	shuffleSite int
+
+	// cutPending: a SKIP / LIMIT of a WITH has cut through rows whose order is open (Observation.ArbitraryWindow);
+	// what the rest of the query does with the surviving rows decides whether even the NUMBER of result rows is
+	// still determined (Observation.WindowFeedsLaterClause).
+	cutPending bool
 }
 
 func newEvaluator(g gmodel.Graph, params map[string]any, opts Options) (*evaluator, error) {
